@@ -901,7 +901,7 @@ class DeclGen(Gen):
         return lx + [kw("END_TYPE"), N], trees
 
     # ---- program organisation units --------------------------------------------------------------
-    def pou(self, kind=None):
+    def pou(self, kind=None, force_sfc=False):
         r = self.rng
         kind = kind or r.choice(["FUNCTION", "FUNCTION_BLOCK", "PROGRAM"])
         n = self.name("P")
@@ -926,6 +926,13 @@ class DeclGen(Gen):
             l, t = self.located_block(incomplete=(kind == "FUNCTION_BLOCK" or r.random() < 0.5), allow_constant=True)
             lx += l
             vars_ += t
+        if kind != "FUNCTION" and (force_sfc or r.random() < 0.15):
+            # the body is a sequential function chart
+            l, sfc_tree = self.sfc()
+            lx += l + [kw("END_" + kind), N]
+            if kind == "FUNCTION_BLOCK":
+                return lx, [T("FunctionBlockDeclaration", name=low(n), variables=vars_, edge_variables=edges, body=sfc_tree)]
+            return lx, [T("ProgramDeclaration", name=low(n), variables=vars_, access_variables=[], body=sfc_tree)]
         body = self.stmt_list(0, r.choice([0, 1, 2, 3, 4])) if kind != "FUNCTION" else self.stmt_list(0, r.choice([1, 2, 3]))
         lx += self.stmts(body)
         lx += [kw("END_" + kind), N]
@@ -939,6 +946,93 @@ class DeclGen(Gen):
             tree = T("ProgramDeclaration", name=low(n), variables=vars_, access_variables=[],
                      body=T("Statements", body=bt) if bt else "empty")
         return lx, [tree]
+
+    # ---- sequential function charts (the body of a function block or program) -----------------------------------------
+    def action_association(self, steps_vars):
+        """name ( [qualifier [, time]] [, indicator ...] )"""
+        r = self.rng
+        an = self.name("act")
+        lx = [ident(an), sym("(")]
+        q = r.choice([None, "N", "R", "S", "L", "D", "P", "SD", "DS", "SL", "P1", "P0"])
+        qt = None
+        if q is not None:
+            lx.append(ident(q))            # the qualifiers are identifiers for the lexer, matched without regard to case
+            if q in ("SD", "DS", "SL", "P1", "P0"):
+                variant = {"P1": "PR", "P0": "PF"}.get(q, q)
+                lx.append(sym(","))
+                if r.random() < 0.5:
+                    secs, txt = r.choice([(1, "T#1s"), (5, "T#5s"), (60, "TIME#1m")])
+                    lx.append(lit(txt))
+                    qt = V(variant, V("Duration", T("DurationLiteral", interval=T("Duration", seconds=str(secs), nanoseconds="0"))))
+                else:
+                    tv = self.name("tv")
+                    lx.append(ident(tv))
+                    qt = V(variant, V("VariableName", low(tv)))
+            else:
+                qt = low(q)
+        inds = [self.name("ind") for _ in range(r.choice([0, 0, 1, 2, 3]))]
+        for v in inds:
+            lx += [sym(","), ident(v)]
+        lx.append(sym(")"))
+        return lx, T("ActionAssociation", name=low(an), qualifier=qt, indicators=[low(v) for v in inds])
+
+    def step_list(self, names):
+        """one step, or a parenthesised list of two to four"""
+        r = self.rng
+        k = r.choice([1, 1, 1, 2, 3, 4])
+        pick = [r.choice(names) for _ in range(k)]
+        if k == 1:
+            return [ident(pick[0])], [low(pick[0])]
+        lx = [sym("(")]
+        for i, n in enumerate(pick):
+            if i:
+                lx.append(sym(","))
+            lx.append(ident(n))
+        return lx + [sym(")")], [low(n) for n in pick]
+
+    def sfc(self):
+        """INITIAL_STEP / STEP / TRANSITION / ACTION elements -> lexemes, the Sfc body tree"""
+        r = self.rng
+        init = self.name("St")
+        names = [init] + [self.name("St") for _ in range(r.choice([1, 2, 3]))]
+        lx = [kw("INITIAL_STEP"), ident(init), sym(":"), N, kw("END_STEP"), N]
+        elements = []
+        todo = [("step", n) for n in names[1:]] + [("transition", None)] * r.choice([1, 2, 3]) + [("action", None)] * r.choice([0, 1, 2])
+        r.shuffle(todo)
+        for kind, n in todo:
+            if kind == "step":
+                lx += [kw("STEP"), ident(n), sym(":"), N]
+                assoc = []
+                for _ in range(r.choice([1, 1, 2, 3])):
+                    l, t = self.action_association(names)
+                    lx += l + [sym(";"), N]
+                    assoc.append(t)
+                lx += [kw("END_STEP"), N]
+                elements.append(T("Step", name=low(n), action_associations=assoc))
+            elif kind == "transition":
+                lx.append(kw("TRANSITION"))
+                tn = None
+                if r.random() < 0.4:
+                    tn = self.name("tr")
+                    lx.append(ident(tn))
+                prio = None
+                if r.random() < 0.4:
+                    prio = r.randrange(0, 10)
+                    lx += [sym("("), ident("PRIORITY"), sym(":="), lit(str(prio)), sym(")")]
+                fl, ft = self.step_list(names)
+                tl, tt = self.step_list(names)
+                cond = self.expr(self.depth - 1)
+                lx += [kw("FROM")] + fl + [kw("TO")] + tl + [N, sym(":=")] + self.spell(cond, 0) + [sym(";"), N, kw("END_TRANSITION"), N]
+                elements.append(("Transition", {"name": None if tn is None else low(tn), "priority": None if prio is None else str(prio),
+                                                "from": ft, "to": tt, "condition": cond.tree()}))
+            else:
+                an = self.name("act")
+                body = self.stmt_list(1, r.choice([0, 1, 2]))
+                lx += [kw("ACTION"), ident(an), sym(":"), N] + self.stmts(body) + [kw("END_ACTION"), N]
+                bt = [x.tree() for x in body]
+                elements.append(T("Action", name=low(an), body=T("Statements", body=bt) if bt else "empty"))
+        tree = T("Sfc", networks=[T("Network", initial_step=T("Step", name=low(init), action_associations=[]), elements=elements)])
+        return lx, tree
 
     def library(self, n=None):
         lx = []
@@ -954,6 +1048,14 @@ class DeclGen(Gen):
 
 
 def gen_unit(rng, depth=3):
+    if rng.random() < 0.12:
+        # a unit that is one sequential function chart and exercises no recorded finding, so that a fault in the chart's
+        # elements is not attributed to something else in the unit
+        for _ in range(40):
+            g = DeclGen(rng, min(depth, 2))
+            lx, trees = g.pou(rng.choice(["FUNCTION_BLOCK", "PROGRAM"]), force_sfc=True)
+            if not g.known:
+                return lx, T("Library", elements=trees), g.known
     g = DeclGen(rng, depth)
     lx, tree = g.library()
     return lx, tree, g.known
